@@ -517,7 +517,7 @@ def check_build_A(ctx: Ctx, rules: Dict[str, str]):
     off = resets[0].targets[0].id if resets else None
     adv = [s for s in ast.walk(I) if isinstance(s, ast.AugAssign) and off and norm(s.target) == off]
     cfg = CFG(f.node)
-    ok_adv = len(adv) == 1 and isinstance(adv[0].op, ast.Add) and norm(adv[0].value) == f"{sizes}[{aid}]" and \
+    ok_adv = len(adv) == 1 and isinstance(adv[0].op, ast.Add) and norm(expand_locals(f.node, adv[0].value)) == f"{sizes}[{aid}]" and \
         cfg.every_iteration_passes(I, {cfg.node_of(adv[0])})
     k.check("A-offset", bool(off) and ok_adv, adv[0] if adv else I,
             "row offset restarts at 0 for each candidate and advances by sizes[annotator] in every iteration (also for empty slots)",
@@ -526,7 +526,7 @@ def check_build_A(ctx: Ctx, rules: Dict[str, str]):
     ok_null = False
     ok_store = False
     if len(ifs) == 1:
-        t = ifs[0].test
+        t = expand_locals(f.node, ifs[0].test, skip=(uid, aid))
         ok_null = is_cmp(t, uid, "!=", f"{sizes}[{aid}]") or is_cmp(t, uid, "<", f"{sizes}[{aid}]")
         st = [s for s in ifs[0].body if isinstance(s, ast.Assign) and isinstance(s.targets[0], ast.Subscript)]
         if len(st) == 1 and norm(st[0].targets[0].value) == Am and isinstance(st[0].targets[0].slice, ast.Tuple):
